@@ -14,11 +14,12 @@
 EXTENDS Integers, Sequences, FiniteSets, TLC
 
 CONSTANTS Files, Names
-\* proj[f] = [defs |-> [Names -> {"none", "private", "public"}],
+\* proj[f] = [defs |-> [Names -> {"none", "private", "public", "pubpriv", "privpub"}],   (the last two: defined
+\*            twice, first public then private / first private then public; the later definition counts)
 \*            imps |-> [Files -> {"none", "plain", "alias"}], importsFirst |-> BOOLEAN]
 
 Defined(proj, f, n) == proj[f].defs[n] # "none"
-Public(proj, f, n)  == proj[f].defs[n] = "public"
+Public(proj, f, n)  == proj[f].defs[n] \in {"public", "privpub"}
 Plain(proj, f, g)   == proj[f].imps[g] = "plain"
 Alias(proj, f, g)   == proj[f].imps[g] = "alias"
 
@@ -33,9 +34,16 @@ ResQ(proj, f, g, n) == Alias(proj, f, g) /\ Public(proj, g, n)
 FileSeq == CHOOSE s \in [1..Cardinality(Files) -> Files] : \A i, j \in 1..Cardinality(Files) : i # j => s[i] # s[j]
 NameSeq == CHOOSE s \in [1..Cardinality(Names) -> Names] : \A i, j \in 1..Cardinality(Names) : i # j => s[i] # s[j]
 ImportItems(proj, f) == LET Keep(g) == proj[f].imps[g] # "none"  sel == SelectSeq(FileSeq, Keep) IN
-  [k \in 1..Len(sel) |-> [k |-> "import", g |-> sel[k], n |-> ""]]
-DefItems(proj, f) == LET Keep(n) == proj[f].defs[n] # "none"  sel == SelectSeq(NameSeq, Keep) IN
-  [k \in 1..Len(sel) |-> [k |-> "def", g |-> "", n |-> sel[k]]]
+  [k \in 1..Len(sel) |-> [k |-> "import", g |-> sel[k], n |-> "", pub |-> FALSE]]
+RECURSIVE DefsFrom(_, _, _)
+DefsFrom(proj, f, i) ==
+  IF i > Len(NameSeq) THEN <<>>
+  ELSE LET n == NameSeq[i]  d == proj[f].defs[n]
+           D(pub) == [k |-> "def", g |-> "", n |-> n, pub |-> pub] IN
+       (CASE d = "none" -> <<>> [] d = "private" -> <<D(FALSE)>> [] d = "public" -> <<D(TRUE)>>
+          [] d = "pubpriv" -> <<D(TRUE), D(FALSE)>> [] d = "privpub" -> <<D(FALSE), D(TRUE)>>)
+       \o DefsFrom(proj, f, i + 1)
+DefItems(proj, f) == DefsFrom(proj, f, 1)
 Items(proj, f) == IF proj[f].importsFirst THEN ImportItems(proj, f) \o DefItems(proj, f)
                   ELSE DefItems(proj, f) \o ImportItems(proj, f)
 
@@ -60,7 +68,7 @@ LoadItems(proj, f, i, st) ==
     IF it.k = "def"
     THEN LoadItems(proj, f, i + 1,
            [st EXCEPT !.vals[f][it.n] = f,
-                      !.exported[f] = IF Public(proj, f, it.n) THEN @ \cup {it.n} ELSE @ \ {it.n}])
+                      !.exported[f] = IF it.pub THEN @ \cup {it.n} ELSE @ \ {it.n}])   \* a private definition un-exports the name
     ELSE IF it.g \in st.seen
     THEN \* already loaded or being loaded (a cycle): take what its namespace holds at this moment, and
          \* remember a plain import so that it can be completed when everything is loaded
